@@ -1,6 +1,6 @@
 (* executable wrappers comparing the C01 model (binary64 instance) with observations of the implementation *)
 From Coq Require Import ZArith List Bool PrimFloat.
-From PR Require Import Base.Num Base.F64 Base.ListX Model.Grid Model.C01_Area.
+From PR Require Import Base.Num Base.F64 Base.ListX Model.Grid Model.C01_Area Model.C01_Cache.
 Import ListNotations.
 Open Scope Z_scope.
 
@@ -112,3 +112,8 @@ Definition chk_lonlat (c : ll_case) : bool :=
   (negb (ll_has_da c) ||
    ll_grid_ok invT (c01_coords_dask F64 a (ll_rch c) (ll_cch c) (ll_rows c) (ll_cols c))
               (Z.of_nat (length (ll_rows c))) (Z.of_nat (length (ll_cols c))) (ll_da c)).
+
+(* a history of lon/lat accessor calls on one object: every observation, in order, entry by entry *)
+Definition chk_history (c : area float * table * table * list c01_op * list (list (list (float * float)))) : bool :=
+  let '(a, tT, tP, ops, obs) := c in
+  list_eqb (list_eqb (list_eqb ff_eqb)) (c01_run F64 (lookup tT) (lookup tP) a false None ops) obs.
